@@ -13,7 +13,7 @@ ID = "C06"
 RULE = (
     "grids (hull/voronoi/lat-lon/solid meshes incl. pyramids with n_face == n_node and single polygons/prisms where "
     "element counts coincide) x face-centred arrays of rank 1-4 and five dtypes x drawn (rule, order) x a drawn history "
-    "of earlier integrate/area calls on the same grid; plus node- and edge-dimensioned arrays which must raise. "
+    "of earlier integrate/area calls on the same grid, the rule passed positionally, by keyword, or left to the documented defaults (integrate() == integrate('triangular', 4), likewise compute_face_areas / calculate_total_face_area); plus node- and edge-dimensioned arrays which must raise. "
     "Oracle: tensordot(values, areas) with areas from a *fresh* grid's compute_face_areas(rule, order); linearity; "
     "ones -> total area. Non-trivial = rank >= 2, or element counts coincide, or rule/order not default, or a prior "
     "call history; distinct by case hash."
@@ -62,6 +62,9 @@ def _case(draw, tier):
         "name": draw(sampled_from(["psi", "v", None])),
         "source": "mpas" if fam == "mpas" else "topology",
         "radius": radius,
+        # how the rule reaches the call: spelled out, left to the defaults (integrate() is integrate("triangular", 4)),
+        # or by keyword
+        "style": draw(sampled_from(["positional", "positional", "defaults", "keywords"])),
     }
     if mode == "face":
         c["data"] = draw(datagen.data_spec(nf, vmax=8))
@@ -129,7 +132,20 @@ def run_case(case, ctx):
     # history of earlier calls on the same grid
     for hr, ho in [tuple(h) for h in case["history"]]:
         da.integrate(hr, ho)
-    res = da.integrate(rule, order)
+    style = case.get("style", "positional")
+
+    def integ(x):
+        if style == "defaults" and (rule, order) == ("triangular", 4):
+            return x.integrate()
+        if style == "defaults" and rule == "triangular":
+            return x.integrate(order=order)
+        if style == "keywords":
+            return x.integrate(order=order, quadrature_rule=rule)
+        return x.integrate(rule, order)
+
+    res = integ(da)
+    if style == "defaults":
+        ctx.label("style:defaults" + (":all" if (rule, order) == ("triangular", 4) else (":rule" if rule == "triangular" else ":none")))
     site = ("after-history" if case["history"] else "first-call") + (":mpas" if case.get("source") == "mpas" else "")
     ctx.ev("input_unchanged")
     if not np.array_equal(np.asarray(da.values), arr, equal_nan=True) or not np.array_equal(arr_live, arr, equal_nan=True):
@@ -154,7 +170,7 @@ def run_case(case, ctx):
     # ones -> total area
     ctx.ev("ones_is_total_area")
     ones = ux.UxDataArray(np.ones(g.n_face), dims=["n_face"], uxgrid=g, name="one")
-    tot = float(ones.integrate(rule, order).values)
+    tot = float(integ(ones).values)
     if abs(tot - float(areas.sum())) > 1e-12 * float(areas.sum()):
         fails.append(Failure("ones_is_total_area", site, "wrong", f"{tot!r} vs sum of areas {areas.sum()!r}"))
     # ... and the total must be the area of the faces on the unit sphere (exact spherical excess; the tolerance follows
@@ -180,7 +196,13 @@ def run_case(case, ctx):
         part = float(ux.UxDataArray(mask, dims=["n_face"], uxgrid=g, name="m").integrate(rule, order).values)
         if abs(part - ex) > tl + 1e-12:
             fails.append(Failure("ones_is_total_area", site, "not-the-spherical-area", f"the indicator of {int(mask.sum())} faces integrates to {part!r}, these faces cover {ex!r} steradians (tolerance {tl:.3g})"))
-    tot2 = float(g.calculate_total_face_area(rule, order))
+    if style == "defaults" and (rule, order) == ("triangular", 4):
+        tot2 = float(g.calculate_total_face_area())
+        a_def = np.asarray(g.compute_face_areas()[0], float)
+        if a_def.shape != areas.shape or not np.allclose(a_def, areas, rtol=1e-12, atol=0):
+            fails.append(Failure("weighted_sum", "compute_face_areas()", "defaults-differ", f"compute_face_areas() without arguments differs from compute_face_areas('triangular', 4): {a_def[:3]} vs {areas[:3]}"))
+    else:
+        tot2 = float(g.calculate_total_face_area(rule, order))
     if abs(tot - tot2) > 1e-12 * abs(tot2):
         fails.append(Failure("ones_is_total_area", "calculate_total_face_area", "differs", f"{tot!r} vs {tot2!r}"))
     # linearity
